@@ -539,6 +539,9 @@ def axioms_of(nodes):
                                   cmp0(sub(ipow(t, t.val), x), '=')])]))
         elif t.op == 'exp':
             out.append(cmp0(neg(t), '<'))
+        elif t.op == 'fn' and t.val in ('sin', 'cos') and len(t.args) == 1:
+            sn, cs = fn('sin', t.args), fn('cos', t.args)
+            out.append(cmp0(sub(add(mul(sn, sn), mul(cs, cs)), ONE), '='))
     return out
 
 
